@@ -82,8 +82,15 @@ impl J {
         match r.below(if edgy { 12 } else { 9 }) {
             0 => J::Null,
             1 => J::Bool(r.chance(1, 2)),
-            2 | 3 | 4 => J::Int(r.range(-3, 12)),
-            5 => J::Float([0.5, 1.5, -2.25, 3.0, 0.1, 100.75][r.below(6)]),
+            2 | 3 | 4 => {
+                if r.chance(1, 12) {
+                    // the zeros: 0, 0.0 and -0.0 compare equal but are three different values
+                    r.pick(&[J::Int(0), J::Float(0.0), J::Float(-0.0)]).clone()
+                } else {
+                    J::Int(r.range(-3, 12))
+                }
+            }
+            5 => J::Float([0.5, 1.5, -2.25, 3.0, 0.1, 100.75, 1.0, 2.0][r.below(8)]),
             6 | 7 | 8 => J::Str((*r.pick(STRS)).to_string()),
             9 => J::Int(*r.pick(&[
                 i64::MIN,
@@ -125,7 +132,13 @@ impl J {
                     v.push(match style {
                         0 => {
                             *budget -= 1;
-                            J::Int(r.range(-3, 12))
+                            // equal-comparing but distinguishable numbers (0 / 0.0 / -0.0, 1 / 1.0)
+                            // are where ordering and equality code paths can be told apart
+                            if r.chance(1, 5) {
+                                r.pick(&[J::Int(0), J::Float(0.0), J::Float(-0.0), J::Float(1.0), J::Int(1)]).clone()
+                            } else {
+                                J::Int(r.range(-3, 12))
+                            }
                         }
                         1 => {
                             *budget -= 1;
@@ -240,7 +253,11 @@ impl<'a> ExprGen<'a> {
             3 => "`[1, 2, 3]`".into(),
             4 => "`{\"a\": 1, \"b\": [true, null]}`".into(),
             5 => "`\"x\"`".into(),
-            6 => (*self.r.pick(&["`null`", "`true`", "`false`", "`[]`", "`{}`", "`0`"])).into(),
+            6 => (*self.r.pick(&[
+                "`null`", "`true`", "`false`", "`[]`", "`{}`", "`0`", "`-0.0`", "`0.0`", "`1.0`", "'a b'", "'two  spaces'",
+                "' lead'", "'tab\there'", "`{\"a\": null}`", "`9007199254740993`", "`18446744073709551615`", "'A b'",
+            ]))
+            .into(),
             7 => "`[\"b\", \"a\", \"c\"]`".into(),
             _ => "`1.5`".into(),
         }
@@ -615,7 +632,13 @@ impl<'a> ExprGen<'a> {
                 4 => "sum(@)".into(),
                 5 => "avg(@)".into(),
                 6 => format!("@{}", self.slice()),
-                7 => format!("[?@ > `{}`]", self.r.range(-2, 6)),
+                7 => {
+                    if self.r.chance(1, 3) {
+                        format!("[?@ {} {}]", self.r.pick(&["<", "<=", ">", ">=", "==", "!="]), self.r.pick(&["`0`", "`-0.0`", "`0.0`", "`1.0`"]))
+                    } else {
+                        format!("[?@ > `{}`]", self.r.range(-2, 6))
+                    }
+                }
                 8 => format!("map(&abs({}), @)", w(self, "@")),
                 9 => "length(@)".into(),
                 10 => format!("[*].{}", Self::dot_safe(&w(self, "@"))),
@@ -731,7 +754,13 @@ impl<'a> ExprGen<'a> {
                 1 => "ceil(@)".into(),
                 2 => "floor(@)".into(),
                 3 => "to_string(@)".into(),
-                4 => format!("@ > `{}`", self.r.range(-2, 6)),
+                4 => {
+                    if self.r.chance(1, 3) {
+                        format!("@ {} {}", self.r.pick(&["<", "<=", ">", ">="]), self.r.pick(&["`0`", "`-0.0`", "`0.0`", "`1.0`"]))
+                    } else {
+                        format!("@ > `{}`", self.r.range(-2, 6))
+                    }
+                }
                 5 => "[@, @]".into(),
                 6 => "{v: @}".into(),
                 7 => format!("@ == `{}`", self.r.range(-2, 6)),
